@@ -1,10 +1,11 @@
 package main
 
 import (
-	"os"
 	"fmt"
 	"go/token"
 	"go/types"
+	"os"
+	"sort"
 	"strings"
 
 	"golang.org/x/tools/go/ssa"
@@ -107,7 +108,17 @@ func (X *Exec) specOf(fr *Frame) *FuncSpec {
 	if fr.Spec != nil {
 		return fr.Spec
 	}
-	return X.E.Specs.Funcs[X.E.P.Keys[fr.Fn]]
+	fs := X.E.Specs.Funcs[X.E.P.Keys[fr.Fn]]
+	if fs != nil && fr != X.TopFrame && len(fs.Ghosts) > 0 {
+		// an inlined callee whose protocol clauses speak about its own ghosts: they are checked when that
+		// function is verified itself, not inside its callers
+		for _, g := range fs.Ghosts {
+			if _, ok := X.ghostTypes[g.Name]; !ok {
+				return nil
+			}
+		}
+	}
+	return fs
 }
 
 func (X *Exec) argVals(fr *Frame, cc *ssa.CallCommon) (recv *Val, args []*Val) {
@@ -402,6 +413,20 @@ func (X *Exec) execCallWith(fr *Frame, ins ssa.Instruction, cc *ssa.CallCommon, 
 
 func (X *Exec) execCallWith2(fr *Frame, ins ssa.Instruction, cc *ssa.CallCommon, st *State, how string, fnv *Val, args []*Val) *Val {
 	pos := ins.Pos()
+	if X.LockMode && how != "go" && !cc.IsInvoke() && cc.StaticCallee() == nil && cc.Value != nil && isHandlerType(cc.Value.Type()) {
+		X.noLockAcrossCallback(fr, st, "handler "+srcName(cc.Value)+" ("+typeKey(cc.Value.Type())+")", pos)
+	}
+	if X.LockMode && how != "go" {
+		if sc := cc.StaticCallee(); sc != nil {
+			k := X.E.P.Keys[sc]
+			if k == "" && sc.Origin() != nil {
+				k = X.E.P.Keys[sc.Origin()]
+			}
+			if fs := X.E.Specs.Funcs[k]; fs != nil && fs.Callback {
+				X.noLockAcrossCallback(fr, st, shortName(k)+", which runs user handlers synchronously", pos)
+			}
+		}
+	}
 	X.curIns = ins
 	skip, forceHavoc := X.applyCallsites(fr, st, cc, how, pos)
 	X.curIns = nil
@@ -444,6 +469,7 @@ func (X *Exec) execCallWith2(fr *Frame, ins ssa.Instruction, cc *ssa.CallCommon,
 			X.oblige(st, "nil", "", "call of nil function value "+srcName(cc.Value), pos, ts.Not(ts.Eq(fnv.T, ts.IntLit(0))))
 		}
 		X.Uncontracted["dynamic call "+srcName(cc.Value)+" in "+X.E.P.Keys[fr.Fn]]++
+
 		X.havocAll(st, "dyn")
 		return X.freshResults(st, cc, "dyn")
 	}
@@ -470,6 +496,9 @@ func (X *Exec) callFunction(fr *Frame, ins ssa.Instruction, callee *ssa.Function
 			}
 		}
 	}
+	if X.LockMode && key == "reflect.(Value).Call" {
+		X.noLockAcrossCallback(fr, st, "a handler through reflect.Value.Call", pos)
+	}
 	if r, ok := X.specialCall(fr, ins, callee, key, cc, st, args); ok {
 		return r
 	}
@@ -488,6 +517,22 @@ func (X *Exec) callFunction(fr *Frame, ins ssa.Instruction, callee *ssa.Function
 			if i := strings.Index(key, "["); i >= 0 {
 				fs = X.E.Specs.Funcs["extern:"+key[:i]] // any instantiation of a generic function
 			}
+		}
+	}
+	if fs != nil && X.LockMode && len(fs.Holds) > 0 && len(bindings) == 0 {
+		// the callee is verified with these locks held on entry: its callers owe that
+		sc := &SpecCtx{X: X, St: st, Old: st, Vars: map[string]*Val{}, OldVars: map[string]*Val{}, Bound: map[string]*Val{}, Pkg: calleePkg(callee, fs, X, fr), What: "holds of " + key}
+		names := X.paramNames(callee, fs, cc.Signature(), false)
+		for i, n := range names {
+			if i < len(args) {
+				sc.Vars[n] = args[i]
+				sc.OldVars[n] = args[i]
+			}
+		}
+		for _, h := range fs.Holds {
+			lk := sc.lockRef(h)
+			cur := X.E.TS.Select(X.heap(st, lk.heap, ArraySort(SInt, SInt)), lk.idx)
+			X.oblige(st, "lockset", "", fmt.Sprintf("%s is called with %s held", shortName(key), h.Src), pos, X.E.TS.Not(X.E.TS.Eq(cur, X.E.TS.IntLit(0))))
 		}
 	}
 	if fs != nil && !fs.Inline && (len(fs.Ensures) > 0 || len(fs.Requires) > 0 || fs.Pure || fs.ModAll || len(fs.Modifies) > 0 || fs.Trusted) {
@@ -635,7 +680,13 @@ func (X *Exec) applyContract(fr *Frame, st *State, fs *FuncSpec, callee *ssa.Fun
 			X.oblige(st, "nil", "", "nil receiver in call of "+fs.Key, pos, ts.Not(ts.Eq(args[0].T, ts.IntLit(0))))
 		}
 	}
+	// a contract stated over bit-vectors / floats (ints bv) means nothing to a caller verified over mathematical
+	// integers: only its frame is used there (results unconstrained)
+	foreignInts := fs.Ints == "bv" && !X.E.BV
 	for _, r := range fs.Requires {
+		if foreignInts {
+			break
+		}
 		t := mk(st, st, fmt.Sprintf("%s:%d", r.File, r.Line)).EvalBool(r.Expr)
 		X.oblige(st, "pre", r.Label, fmt.Sprintf("precondition of %s: %s", fs.Key, r.Src), pos, t)
 	}
@@ -671,6 +722,9 @@ func (X *Exec) applyContract(fr *Frame, st *State, fs *FuncSpec, callee *ssa.Fun
 		}
 	}
 	for _, e := range fs.Ensures {
+		if foreignInts {
+			break
+		}
 		if mentionsGhost(e.Expr, fs) {
 			continue // a statement about the callee's own ghost trace: means nothing to a caller
 		}
@@ -1079,7 +1133,6 @@ func mentionsGhost(e *SExpr, fs *FuncSpec) bool {
 	return false
 }
 
-
 // loopVarsAt: rangeindex / rangelen of the innermost loop that contains the instruction (nil outside loops).
 func (X *Exec) loopVarsAt(fr *Frame, st *State, ins ssa.Instruction) map[string]*Val {
 	if ins == nil || ins.Block() == nil || ins.Parent() != fr.Fn {
@@ -1096,4 +1149,39 @@ func (X *Exec) loopVarsAt(fr *Frame, st *State, ins ssa.Instruction) map[string]
 		return nil
 	}
 	return X.loopVars(fr, best, st)
+}
+
+// noLockAcrossCallback: a callback of unknown origin (user handler) may call back into the API: every lock this
+// function has taken must have been released again (lock state equals the entry state, `holds` included).
+func (X *Exec) noLockAcrossCallback(fr *Frame, st *State, what string, pos token.Pos) {
+	ts := X.E.TS
+	var names []string
+	for n := range st.Heaps {
+		if strings.HasPrefix(n, "LK|") {
+			names = append(names, n)
+		}
+	}
+	sort.Strings(names)
+	ls := ArraySort(SInt, SInt)
+	for _, n := range names {
+		cur := X.heap(st, n, ls)
+		free := ts.ConstArray(ls, ts.IntLit(0))
+		if cur == free {
+			continue
+		}
+		X.oblige(st, "lockset", "", fmt.Sprintf("no lock is held across the call of %s (%s)", what, n), pos, ts.Eq(cur, free))
+	}
+}
+
+
+// isHandlerType: the public handler types of the API (named func types ...Func / ...Callback declared in the module).
+func isHandlerType(t types.Type) bool {
+	n, ok := t.(*types.Named)
+	if !ok || n.Obj().Pkg() == nil || !strings.HasPrefix(n.Obj().Pkg().Path(), "github.com/karagenc/socket.io-go") {
+		return false
+	}
+	if _, isSig := n.Underlying().(*types.Signature); !isSig {
+		return false
+	}
+	return strings.HasSuffix(n.Obj().Name(), "Func") || strings.HasSuffix(n.Obj().Name(), "Callback")
 }
